@@ -432,9 +432,11 @@ package openapi3
 //@   defines !result ==> cursor != nil && notNilPointer(cursor)
 //@   tag C20
 //@ func (*Loader).resolveComponent$1
-//@   requires len(fragment) >= 1
-//@   requires cursor == nil || notNilPointer(cursor)
+//@   requires @C20 len(fragment) >= 1
+//@   requires @C20 cursor == nil || notNilPointer(cursor)
 //@   modifies *
+//@   preserves @C11 Loader.IsExternalRefsAllowed, url.URL.Scheme, url.URL.Opaque, url.URL.Host, url.URL.Path, url.URL.RawPath, url.URL.RawQuery
+//@   preserves @C11 extReads, rootURL
 //@   loop 0 invariant cursor == nil || notNilPointer(cursor)
 //@   loop 0 invariant len(fragment) >= 1
 //@   ensures [finds-an-object-or-fails] result.1 == nil ==> result.0 != nil && notNilPointer(result.0)
